@@ -171,13 +171,16 @@ def decKind (cur : ValueKind) : Json → Dec ValueKind
       | none => .error errUnmodelled
   | _ => .error errType
 
-/-- a slice of pointers decoded element by element: `null` → nil slice, `null` elements (nil
-    pointers) are outside the tree type -/
+/-- one element of a slice of pointers: a `null` element is a nil pointer, which the tree type
+    cannot hold -/
+def decElem {α} (f : Json → Dec α) : Json → Dec α
+  | .null => .error errUnmodelled
+  | x => f x
+
+/-- a slice of pointers decoded element by element: `null` → nil slice -/
 def decList {α} (f : Json → Dec α) : Json → Dec (List α)
   | .null => .ok []
-  | .arr xs => xs.toList.mapM fun x => match x with
-      | .null => .error errUnmodelled
-      | x => f x
+  | .arr xs => xs.toList.mapM (decElem f)
   | _ => .error errType
 
 /-- Go `Type{NamedType, Elem, NonNull}` as the tree sees it (`Sx.Type` of the harness) -/
@@ -344,6 +347,11 @@ def pick (order : List SelKind) (f s i : Unit → Dec Selection) : Option Select
     | .ok sel => some sel
     | .error _ => pick rest f s i
 
+/-- `result = append(result, &x)` when some decoder accepted the item, `continue` otherwise -/
+def consOpt : Option Selection → Selections → Selections
+  | some s, rest => .cons s rest
+  | none, rest => rest
+
 mutual
   /-- `UnmarshalSelectionSet` -/
   def decSelectionSet (disc : Disc) : Json → Dec Selections
@@ -353,22 +361,23 @@ mutual
   /-- the loop over the raw items -/
   def decSelItems (disc : Disc) : JList → Selections
     | .nil => .nil
-    | .cons x rest =>
-      let sel : Option Selection :=
-        match x with
-        | .obj kvs =>
-          pick (disc (.obj kvs))
-            (fun _ => (decFieldKeys disc kvs {}).map FieldAcc.toSel)
-            (fun _ => (decSpreadKeys kvs ([], [])).map spreadOf)
-            (fun _ => (decInlineKeys disc kvs {}).map InlineAcc.toSel)
-        | .null =>
-          -- `null` reaches every decoder as "no keys"
-          pick (disc .null) (fun _ => .ok (FieldAcc.toSel {})) (fun _ => .ok (spreadOf ([], [])))
-            (fun _ => .ok (InlineAcc.toSel {}))
-        | _ => none
-      match sel with
-      | some s => .cons s (decSelItems disc rest)
-      | none => decSelItems disc rest
+    | .cons (.obj kvs) rest =>
+      consOpt
+        (pick (disc (.obj kvs))
+          (fun _ => (decFieldKeys disc kvs {}).map FieldAcc.toSel)
+          (fun _ => (decSpreadKeys kvs ([], [])).map spreadOf)
+          (fun _ => (decInlineKeys disc kvs {}).map InlineAcc.toSel))
+        (decSelItems disc rest)
+    | .cons .null rest =>
+      -- `null` reaches every decoder as "no keys"
+      consOpt
+        (pick (disc .null) (fun _ => .ok (FieldAcc.toSel {})) (fun _ => .ok (spreadOf ([], [])))
+          (fun _ => .ok (InlineAcc.toSel {})))
+        (decSelItems disc rest)
+    | .cons (.bool _) rest => decSelItems disc rest
+    | .cons (.num _) rest => decSelItems disc rest
+    | .cons (.str _) rest => decSelItems disc rest
+    | .cons (.arr _) rest => decSelItems disc rest
   /-- `(*Field).UnmarshalJSON`: `for k := range tmp { switch k { … } }` -/
   def decFieldKeys (disc : Disc) : JFields → FieldAcc → Dec FieldAcc
     | .nil, acc => .ok acc
